@@ -1,0 +1,69 @@
+//go:build verif
+
+// Contracts for property C11, the search state of UntrustedInputChecker: a chain (variable, then
+// property / index / filter accesses) is matched against the table of untrusted inputs starting from
+// an idle state, the end of a chain reports iff a leaf of the table was reached, and the state is idle
+// again afterwards - nothing of one chain (candidate set, start node, pending object filter) survives
+// into the next one. Verified by govc.
+
+package actionlint
+
+//@ func (*UntrustedInputChecker).reset
+//@   props C11
+//@   anchor
+//@   ensures u.start == nil && !u.filteringObject && len(u.cur) == 0
+//@   ensures u.errs == old(u.errs) && u.safeCalls == old(u.safeCalls)
+
+//@ func (*UntrustedInputChecker).Init
+//@   props C11
+//@   anchor
+//@   ensures u.start == nil && !u.filteringObject && len(u.cur) == 0 && len(u.errs) == 0 && u.safeCalls == 0
+
+//@ func (*UntrustedInputChecker).end
+//@   props C11
+//@   anchor
+//@   ensures u.start == nil && !u.filteringObject && len(u.cur) == 0
+//@   ensures u.safeCalls == old(u.safeCalls)
+//@   ensures len(u.errs) == old(len(u.errs)) || len(u.errs) == old(len(u.errs)) + 1
+//@   ensures old(len(u.cur)) == 0 ==> len(u.errs) == old(len(u.errs))
+//@   loop "range u.cur":
+//@     invariant u.cur == old(u.cur) && u.errs == old(u.errs) && u.safeCalls == old(u.safeCalls)
+//@     invariant range_i + 1 <= len(u.cur) && (range_i < 0 ==> len(inputs) == 0)
+
+//@ func (*UntrustedInputChecker).OnVisitEnd
+//@   props C11
+//@   anchor
+//@   ensures u.start == nil && !u.filteringObject && len(u.cur) == 0
+
+//@ func (*UntrustedInputChecker).onVar
+//@   props C11
+//@   anchor
+//@   requires len(u.cur) == 0 && !u.filteringObject
+//@   ensures u.roots.has(v.Name) ==> len(u.cur) == 1 && u.cur[0] == u.roots[v.Name] && u.start == iface(v)
+//@   ensures !u.roots.has(v.Name) ==> len(u.cur) == 0 && u.start == old(u.start)
+//@   ensures !u.filteringObject && u.errs == old(u.errs) && u.safeCalls == old(u.safeCalls)
+
+//@ func (*UntrustedInputChecker).onIndexAccess
+//@   props C11
+//@   anchor
+//@   ensures !u.filteringObject
+//@   ensures old(u.filteringObject) ==> u.cur == old(u.cur)
+//@   ensures len(u.cur) <= old(len(u.cur)) && u.errs == old(u.errs) && u.start == old(u.start)
+
+//@ func (*UntrustedInputChecker).onObjectFilter
+//@   props C11
+//@   anchor
+//@   ensures u.filteringObject && u.errs == old(u.errs) && u.start == old(u.start)
+
+//@ func (*UntrustedInputChecker).onPropAccess
+//@   props C11
+//@   ensures u.filteringObject == old(u.filteringObject) && len(u.cur) <= old(len(u.cur)) && u.errs == old(u.errs) && u.start == old(u.start)
+
+//@ func (*UntrustedInputChecker).compact
+//@   props C11
+//@   ensures u.filteringObject == old(u.filteringObject) && len(u.cur) <= old(len(u.cur)) && u.errs == old(u.errs) && u.start == old(u.start)
+//@   ensures forall j: int :: 0 <= j && j < len(u.cur) ==> u.cur[j] != nil
+//@   loop "range u.cur":
+//@     invariant 0 <= delta && delta <= range_i + 1 && range_i + 1 <= len(u.cur)
+//@     invariant u.cur == old(u.cur) && u.filteringObject == old(u.filteringObject) && u.errs == old(u.errs) && u.start == old(u.start)
+//@     invariant forall j: int :: 0 <= j && j < range_i + 1 - delta ==> u.cur[j] != nil
